@@ -114,6 +114,7 @@ def run_tlc(
     jopts = [
         "-XX:+UseParallelGC",
         f"-Xmx{heap}",
+        "-Xss256m",
         f"-DTLA-Library={SPEC}",
     ]
     if dfs:
